@@ -245,6 +245,9 @@ theorem commit_ok_iff (H : Hashes) (t t' : Transcript) (n nonce : ℕ) :
     Pow.commit H t n nonce = .ok t' ↔
       (Pow.verifyPow H t.digest.toBytesBE n nonce = .ok () ∧ t' = t.readU64 H nonce) := by
   unfold Pow.commit
-  split <;> simp_all [eq_comm]
+  cases h : Pow.verifyPow H t.digest.toBytesBE n nonce with
+  | ok u => cases u; simp [eq_comm]
+  | err e => simp
+  | panic s => simp
 
 end Swiftness.Proofs.PowLemmas
